@@ -14,3 +14,4 @@ INVARIANT ResampleOK
 INVARIANT Drift_RandomPair
 INVARIANT Drift_RandomClifford
 INVARIANT MarginalOK
+INVARIANT MarginalExactOK
